@@ -855,7 +855,7 @@ class Engine:
     def s_For(self, s, st):
         if s.orelse:
             raise OutOfSubset("for-else", s)
-        ordinal = self.loop_ordinals[id(s)]
+        ordinal = self.loop_ordinals.get(id(s), 9000 + getattr(s, 'lineno', 0))
         outs = []
         for s2, it in self.eval(s.iter, st):
             outs.extend(self.loop(s, s2, it, ordinal))
